@@ -1710,6 +1710,20 @@ class StridedInterval:
         """
         new_bits = max(self.bits, b.bits)
 
+        if b.stride > 0 and not b.is_empty:
+            # the bounds of the difference are computed from the bounds of b as if both were members of b: take the
+            # last member of b for its upper bound
+            span = self._modular_sub(b.upper_bound, b.lower_bound, b.bits)
+            last = self._modular_add(b.lower_bound, span - span % b.stride, b.bits)
+            if last != b.upper_bound:
+                b = StridedInterval(
+                    bits=b.bits,
+                    stride=b.stride,
+                    lower_bound=b.lower_bound,
+                    upper_bound=last,
+                    uninitialized=b.uninitialized,
+                )
+
         overflow = self._wrapped_overflow_sub(self, b)
         if overflow:
             return StridedInterval.top(self.bits)
